@@ -317,3 +317,100 @@ def r04_9_end_of_time_years(ctx: Ctx) -> RuleResult:
             else:
                 rr.fail(f.qual, f"`{unparse(n)[:70]}` is executed when the local instant is the {'after-max' if after else 'before-min' if before else 'unknown'} sentinel: the recurrence is evaluated for the wrong end of time", ctx.loc(f, n))
     return rr
+
+
+# ------------------------------------------------------------------------------------------- R04.10 / R04.11
+
+
+@rule("C04")
+def r04_10_masked_index_fits_table(ctx: Ctx) -> RuleResult:
+    """Fixed-size tables (`self.x = [v] * K`) are indexed by a value reduced with `& MASK` or `% N`: the table must have at least
+    MASK + 1 (resp. N) slots, or some period hashes to a slot that does not exist and the lookup raises IndexError for one
+    32-day window in every 16384 days."""
+    rr = RuleResult("R04.10", "every fixed-size table indexed through `& MASK` / `% N` has at least MASK + 1 / N slots", min_instances=1)
+    M = ctx.M
+    for lst in M.classes.values():
+        for c in lst:
+            if not c.mod.rel.startswith("pyoda_time/") or "_compatibility" in c.mod.rel:
+                continue
+            sizes: dict[str, tuple[int, ast.AST, object]] = {}
+            for g in c.methods.values():
+                if isinstance(g.node, ast.Lambda):
+                    continue
+                for n in own_nodes(g.node):
+                    if isinstance(n, ast.Assign) and isinstance(n.value, ast.BinOp) and isinstance(n.value.op, ast.Mult):
+                        for lst_e, k_e in ((n.value.left, n.value.right), (n.value.right, n.value.left)):
+                            if isinstance(lst_e, ast.List) and len(lst_e.elts) == 1:
+                                k = M.fold(k_e, c, c.mod)
+                                for t in n.targets:
+                                    if isinstance(t, ast.Attribute) and isinstance(k, int):
+                                        sizes[t.attr] = (k, n, g)
+            if not sizes:
+                continue
+            for g in c.methods.values():
+                if isinstance(g.node, ast.Lambda):
+                    continue
+                defs: dict[str, ast.expr] = {}
+                for n in own_nodes(g.node):
+                    if isinstance(n, ast.Assign) and len(n.targets) == 1 and isinstance(n.targets[0], ast.Name):
+                        defs[n.targets[0].id] = n.value
+                for n in own_nodes(g.node):
+                    if isinstance(n, ast.Subscript) and isinstance(n.value, ast.Attribute) and n.value.attr in sizes:
+                        idx = n.slice
+                        if isinstance(idx, ast.Name) and idx.id in defs:
+                            idx = defs[idx.id]
+                        bound = None
+                        if isinstance(idx, ast.BinOp) and isinstance(idx.op, ast.BitAnd):
+                            for side in (idx.right, idx.left):
+                                v = M.fold(side, c, c.mod)
+                                if isinstance(v, int) and v >= 0:
+                                    bound = v + 1
+                        elif isinstance(idx, ast.BinOp) and isinstance(idx.op, ast.Mod):
+                            v = M.fold(idx.right, c, c.mod)
+                            if isinstance(v, int) and v > 0:
+                                bound = v
+                        if bound is None:
+                            continue
+                        rr.inst()
+                        size = sizes[n.value.attr][0]
+                        if size >= bound:
+                            rr.ok({"table": f"{c.name}.{n.value.attr}", "slots": size, "index_values": bound})
+                        else:
+                            rr.fail(g.qual, f"`{unparse(n)[:60]}`: the index takes {bound} values (0..{bound - 1}) but the table `{n.value.attr}` is created with {size} slots", ctx.loc(g, n))
+    return rr
+
+
+@rule("C04")
+def r04_11_intervals_reach_the_ends_of_time(ctx: Ctx) -> RuleResult:
+    """Zone intervals that are unbounded on one side carry the sentinels Instant._before_min_value() / _after_max_value() (has_start /
+    has_end False).  Instant.min_value / max_value are ordinary instants: an interval ending AT max_value does not contain it
+    (ends are exclusive), so the timeline is no longer covered.  Every ZoneInterval construction in the zone layer is checked."""
+    rr = RuleResult("R04.11", "no ZoneInterval is built with the ordinary instants Instant.min_value / max_value as a bound: unbounded sides use the before-min / after-max sentinels", min_instances=5)
+    M = ctx.M
+    for f in sorted(set(M.func_of_node.values()), key=lambda x: x.qual):
+        if isinstance(f.node, ast.Lambda) or not f.mod.rel.startswith("pyoda_time/") or "/testing/" in f.mod.rel:
+            continue
+        for n in own_nodes(f.node):
+            if isinstance(n, ast.Call) and unparse(n.func).split(".")[-1] in ("ZoneInterval", "_with_start", "_with_end") and (unparse(n.func).split(".")[-1] != "ZoneInterval" or unparse(n.func) == "ZoneInterval"):
+                rr.inst()
+                bad = [unparse(a) for a in list(n.args) + [k.value for k in n.keywords] if unparse(a) in ("Instant.max_value", "Instant.min_value")]
+                if bad:
+                    rr.fail(f.qual, f"`{unparse(n)[:80]}` uses {bad[0]} as an interval bound: that instant is then outside every interval (ends are exclusive) / the interval no longer extends to the end of time", ctx.loc(f, n))
+                else:
+                    rr.ok()
+    # the fixed zone's single interval is unbounded on both sides
+    fz = M.func("_FixedDateTimeZone.__init__")
+    calls = [n for n in own_nodes(fz.node) if isinstance(n, ast.Call) and unparse(n.func) == "ZoneInterval"]
+    rr.inst()
+    if len(calls) != 1:
+        raise AnalysisError("_FixedDateTimeZone.__init__: expected one ZoneInterval construction")
+    from ..kit import bind_args
+
+    zi = M.find_method(M.cls("ZoneInterval"), "__init__")
+    b = bind_args(calls[0], zi) if zi is not None else {k.arg: k.value for k in calls[0].keywords}
+    s, e = unparse(b.get("start")) if b.get("start") is not None else "", unparse(b.get("end")) if b.get("end") is not None else ""
+    if s == "Instant._before_min_value()" and e == "Instant._after_max_value()":
+        rr.ok({"fixed zone interval": f"[{s}, {e})"})
+    else:
+        rr.fail(fz.qual, f"the fixed zone's only interval is [{s}, {e}): it must run from Instant._before_min_value() to Instant._after_max_value() to cover the whole timeline", ctx.loc(fz, calls[0]))
+    return rr
